@@ -145,12 +145,15 @@ structure Frame where
   base : St
   term : Tok
   more : List Tok
+  /-- the code emitted before the expression -/
+  pre : Array Instr := base.code
 
 /-- the parser state with `toks` (then the terminator) pending and `code` emitted -/
 def Frame.S (fr : Frame) (toks : List Tok) (code : List Instr) : St :=
   match toks with
-  | t :: r => { fr.base with cur := t, rest := r ++ fr.term :: fr.more, code := code.toArray }
-  | [] => { fr.base with cur := fr.term, rest := fr.more, code := code.toArray }
+  | t :: r =>
+    { fr.base with cur := t, rest := r ++ fr.term :: fr.more, code := fr.pre ++ code.toArray }
+  | [] => { fr.base with cur := fr.term, rest := fr.more, code := fr.pre ++ code.toArray }
 
 theorem Frame.S_cur_cons (fr : Frame) (t : Tok) (r : List Tok) (code : List Instr) :
     (fr.S (t :: r) code).cur = t := rfl
